@@ -264,7 +264,7 @@ func (rw *rewriter) rtCall(name string, args ...ast.Expr) *ast.CallExpr {
 
 var shadowMethods = map[string]bool{
 	"Load": true, "Store": true, "Add": true, "Swap": true, "CompareAndSwap": true,
-	"Lock": true, "Unlock": true, "RLock": true, "RUnlock": true, "TryLock": true,
+	"Lock": true, "Unlock": true, "RLock": true, "RUnlock": true, "TryLock": true, "TryRLock": true,
 	"Wait": true, "Broadcast": true, "Signal": true, "Done": true, "Get": true, "Put": true,
 }
 
